@@ -225,3 +225,170 @@ func ZZ_C07_rollbackUnderSchedules() {
 	nondet.Observe("canaryNodeBackOnA", replaced)
 	nondet.Reach("C07.sched.canary-pod-replaced", replaced)
 }
+
+// ZZ_C05_promotionUnderSchedules: the promotion rule along whole histories, with the user acting
+// in between.  Three nodes, canary of one node, auto validation with a three-minute duration.
+// Each of the k steps is one of: ExtendedDaemonSet reconcile, a sync of both replica sets, a
+// kubelet step (one minute passes), the user toggling the canary pause (as kubectl-eds pause /
+// unpause write it), the user validating the canary.  Whenever status.activeReplicaSet switches to
+// the new replica set, the canary-valid annotation named it or — the canary not being paused at
+// that moment — its duration had elapsed; and new-template pods appear outside the canary nodes
+// only after the switch.
+func ZZ_C05_promotionUnderSchedules() {
+	steps := 6
+	if nondet.Thorough() {
+		steps = 8
+	}
+	one := intstr.FromInt(1)
+	w, _ := zzNewWorld(3, &datadoghqv1alpha1.ExtendedDaemonSetSpecStrategyCanary{Replicas: &one, Duration: &metav1.Duration{Duration: 3 * time.Minute},
+		NoRestartsDuration: &metav1.Duration{Duration: time.Minute}})
+	seen := 0
+	promoted := false
+	for s := 0; s < steps; s++ {
+		cur := w.c.EDS[0]
+		pausedBefore := cur.Annotations[datadoghqv1alpha1.ExtendedDaemonSetCanaryPausedAnnotationKey] == "true"
+		validBefore := cur.Annotations[datadoghqv1alpha1.ExtendedDaemonSetCanaryValidAnnotationKey]
+		var canaryNodes []string
+		if cur.Status.Canary != nil {
+			canaryNodes = append(canaryNodes, cur.Status.Canary.Nodes...)
+		}
+		other := w.otherRS()
+		age := time.Duration(0)
+		for _, rs := range w.c.ERS {
+			if rs.Name == other {
+				age = nondet.Base().Sub(rs.CreationTimestamp.Time)
+			}
+		}
+		switch nondet.String("step"+strconv.Itoa(s), "eds", "rs-all", "kubelet", "toggle-pause", "validate") {
+		case "eds":
+			_, _ = w.eds.Reconcile(context.TODO(), reconcile.Request{NamespacedName: types.NamespacedName{Namespace: zzNS, Name: zzEDSName}})
+		case "rs-all":
+			for _, name := range []string{"foo-a", other} {
+				if name != "" {
+					_, _ = zzReconcile(zzReconciler(w.c, false), zzNS, name)
+				}
+			}
+		case "kubelet":
+			zzKubelet(w.c)
+		case "toggle-pause":
+			if cur.Status.Canary == nil {
+				nondet.Assume(false) // kubectl-eds refuses without an active canary
+			}
+			if pausedBefore {
+				cur.Annotations[datadoghqv1alpha1.ExtendedDaemonSetCanaryPausedAnnotationKey] = "false"
+				cur.Annotations[datadoghqv1alpha1.ExtendedDaemonSetCanaryUnpausedAnnotationKey] = "true"
+			} else {
+				cur.Annotations[datadoghqv1alpha1.ExtendedDaemonSetCanaryPausedAnnotationKey] = "true"
+				cur.Annotations[datadoghqv1alpha1.ExtendedDaemonSetCanaryUnpausedAnnotationKey] = "false"
+			}
+		default:
+			if cur.Status.Canary == nil {
+				nondet.Assume(false)
+			}
+			cur.Annotations[datadoghqv1alpha1.ExtendedDaemonSetCanaryValidAnnotationKey] = cur.Status.Canary.ReplicaSet
+		}
+		after := w.c.EDS[0]
+		if !promoted && after.Status.ActiveReplicaSet != "foo-a" {
+			promoted = true
+			// the switch happens in an ExtendedDaemonSet reconcile and only when the rule allows it
+			nondet.Assert("C05.sched.switch-to-the-new-replicaset", after.Status.ActiveReplicaSet == other && other != "")
+			byValidation := validBefore != "" && validBefore == other
+			byTime := !pausedBefore && age >= 3*time.Minute-time.Second
+			nondet.Assert("C05.sched.rule", byValidation || byTime)
+			nondet.Fact("byValidation", byValidation)
+		}
+		for _, e := range w.c.Log[seen:] {
+			if e.Kind == "Pod" && e.Verb == "create" && e.Obj.(*corev1.Pod).Annotations[datadoghqv1alpha1.MD5ExtendedDaemonSetAnnotationKey] == w.hashB && !promoted {
+				nondet.Assert("C05.sched.new-template-confined-until-promoted", zzInList(canaryNodes, e.Node))
+			}
+		}
+		seen = len(w.c.Log)
+		w.onePodPerNode("C05.sched.one-pod-per-node")
+	}
+	nondet.Observe("promoted", promoted)
+	nondet.Reach("C05.sched.promoted", promoted)
+}
+
+// ZZ_C08_switchesUnderSchedules: "every combination and toggling order of the paused, frozen ...
+// annotations, and every interleaving of reconciles while they are set".  Three nodes, no canary
+// strategy, template just changed.  Each of the k steps is an ExtendedDaemonSet reconcile, a sync of
+// both replica sets, a kubelet step, or the user toggling rolling-update-paused or rollout-frozen.
+// A sync that runs while rollout-frozen is true creates and deletes nothing; one that runs while
+// rolling-update-paused is true deletes nothing; after an ExtendedDaemonSet reconcile status.state
+// tells the switches; and with both switches off the rollout does make progress again.
+func ZZ_C08_switchesUnderSchedules() {
+	steps := 5
+	if nondet.Thorough() {
+		steps = 7
+	}
+	w, _ := zzNewWorld(3, nil)
+	seen := 0
+	for s := 0; s < steps; s++ {
+		cur := w.c.EDS[0]
+		paused := cur.Annotations[datadoghqv1alpha1.ExtendedDaemonSetRollingUpdatePausedAnnotationKey] == "true"
+		frozen := cur.Annotations[datadoghqv1alpha1.ExtendedDaemonSetRolloutFrozenAnnotationKey] == "true"
+		kind := nondet.String("step"+strconv.Itoa(s), "eds", "rs-all", "kubelet", "toggle-paused", "toggle-frozen")
+		switch kind {
+		case "eds":
+			_, _ = w.eds.Reconcile(context.TODO(), reconcile.Request{NamespacedName: types.NamespacedName{Namespace: zzNS, Name: zzEDSName}})
+		case "rs-all":
+			for _, name := range []string{"foo-a", w.otherRS()} {
+				if name != "" {
+					_, _ = zzReconcile(zzReconciler(w.c, false), zzNS, name)
+				}
+			}
+		case "kubelet":
+			zzKubelet(w.c)
+		case "toggle-paused":
+			// set to "true", then to "false" (as kubectl-eds writes it), then removed
+			switch cur.Annotations[datadoghqv1alpha1.ExtendedDaemonSetRollingUpdatePausedAnnotationKey] {
+			case "":
+				cur.Annotations[datadoghqv1alpha1.ExtendedDaemonSetRollingUpdatePausedAnnotationKey] = "true"
+			case "true":
+				cur.Annotations[datadoghqv1alpha1.ExtendedDaemonSetRollingUpdatePausedAnnotationKey] = "false"
+			default:
+				delete(cur.Annotations, datadoghqv1alpha1.ExtendedDaemonSetRollingUpdatePausedAnnotationKey)
+			}
+		default:
+			if frozen {
+				delete(cur.Annotations, datadoghqv1alpha1.ExtendedDaemonSetRolloutFrozenAnnotationKey)
+			} else {
+				cur.Annotations[datadoghqv1alpha1.ExtendedDaemonSetRolloutFrozenAnnotationKey] = "true"
+			}
+		}
+		creates, deletes, createdRS := 0, 0, false
+		for _, e := range w.c.Log[seen:] {
+			if e.Kind == "Pod" && e.Verb == "create" {
+				creates++
+			}
+			if e.Kind == "Pod" && e.Verb == "delete" {
+				deletes++
+			}
+			if e.Kind == "ExtendedDaemonSetReplicaSet" && e.Verb == "create" {
+				createdRS = true
+			}
+		}
+		seen = len(w.c.Log)
+		if kind == "rs-all" {
+			if frozen {
+				nondet.Assert("C08.sched.frozen-sync-touches-no-pod", creates == 0 && deletes == 0)
+			}
+			if paused {
+				nondet.Assert("C08.sched.paused-sync-deletes-nothing", deletes == 0)
+			}
+		}
+		// (the reconcile that creates the replica set of the new template returns right after that)
+		if kind == "eds" && !createdRS {
+			want := datadoghqv1alpha1.ExtendedDaemonSetStatusStateRunning
+			if frozen {
+				want = datadoghqv1alpha1.ExtendedDaemonSetStatusStateRolloutFrozen
+			} else if paused {
+				want = datadoghqv1alpha1.ExtendedDaemonSetStatusStateRollingUpdatePaused
+			}
+			nondet.Assert("C08.sched.state-tells-the-switches", w.c.EDS[0].Status.State == want)
+		}
+		w.onePodPerNode("C08.sched.one-pod-per-node")
+		nondet.Assert("C08.sched.budget", w.unavailableNodes() <= 1)
+	}
+	nondet.Reach("C08.sched.frozen-sync-seen", w.c.EDS[0].Annotations[datadoghqv1alpha1.ExtendedDaemonSetRolloutFrozenAnnotationKey] == "true" && seen > 0)
+}
